@@ -91,7 +91,7 @@ def _c14(tier, seed):
 
 PROPS["C14"] = {
     "level": "model_checking",
-    "files": ["src/naming/cluster/node_manage.rs", "src/naming/cluster/model.rs"],
+    "files": ["src/naming/cluster/node_manage.rs", "src/naming/cluster/model.rs", "src/naming/core.rs", "src/naming/service.rs"],
     "smt": _c14,
     "trusted_base": ["rs2smt: /verif/rs2smt/rsparse.py (parser for the Rust subset) and rseval.py (symbolic evaluator), validated on every run "
                      "against the native build of the same functions (s14_translator_validation)", "z3 5.1.0"],
@@ -100,8 +100,10 @@ PROPS["C14"] = {
         "DefaultHasher::finish() is an arbitrary u64 (all 2^64 values); Hash::hash is a no-op",
         "all live nodes share one view (same membership and liveness); the local node is alive in its own view",
         "integer casts between usize/u64 are identities (64-bit target)",
+        "s14_5: NamingActor::refresh_process_range, ProcessRange::is_range, Service::do_refresh_process_range from source on three services hashing to 0, 1, 2 (get_hash_value is a table), two HTTP instances synced from "
+        "node 2 (health symbolic) and one gRPC instance each, every range (index < len <= 3): in-range services' HTTP instances become local and sit under one of this node's timers, nothing else changes",
     ],
-    "outside": "the 15 s liveness timer that flips node status; views that differ between nodes; cluster sizes above 5 (3 in the quick tier)",
+    "outside": "views that differ between nodes; cluster sizes above 5 (3 in the quick tier); the sync of instances to the other nodes after a range change",
     "explanation": "bounded symbolic execution of the real source (concrete cluster size, symbolic liveness and hash) + SMT",
 }
 
@@ -604,7 +606,8 @@ def _c20_smt(tier, seed):
     if not os.environ.get("VERIF_NO_NATIVE"):
         if tob.get("verdict") == "violation":
             ls = (tob.get("counterexample") or {}).get("value_lengths") or [3, 200, 1100]
-            rr = native_scenarios("C20", "violation", ["transfer_file_" + "_".join(str(x) for x in ls)], tob["message"], {"obligation": tob["harness"], "model": tob.get("counterexample")})
+            ids_ = (tob.get("counterexample") or {}).get("by_id") or []
+            rr = native_scenarios("C20", "violation", ["transfer_file_" + "_".join(str(x) for x in ls) + ("_ids" if ids_ and all(ids_) else "")], tob["message"], {"obligation": tob["harness"], "model": tob.get("counterexample")})
             tob["replay_path"] = rr["path"]
             if rr["outcome"] == "reproduced":
                 tob["replay"] = {"path": rr["path"], "outcome": rr["outcome"], "message": rr["message"]}
@@ -612,7 +615,7 @@ def _c20_smt(tier, seed):
             else:
                 tob["replay"] = {"path": rr["path"], "outcome": "model-only", "message": "the native scenario names odd records by table id; it does not show this counterexample: %s" % rr["message"][:200]}
         elif tob.get("verdict") == "discharged":
-            nv = native_scenarios("C20", "validate", ["transfer_file_3_200_1100", "transfer_file_1100_3_3", "transfer_file_200_1100_1100"])
+            nv = native_scenarios("C20", "validate", ["transfer_file_3_200_1100", "transfer_file_1100_3_3", "transfer_file_200_1100_1100", "transfer_file_0_0_0_ids", "transfer_file_1100_0_0_ids"])
             info["translator_validation_transfer_files"] = {"outcome": nv["outcome"], "message": nv["message"], "path": nv["path"]}
             if nv["outcome"] != "passed":
                 tob.update({"verdict": "inconclusive", "message": "the obligation is discharged but the real transfer writer / readers do not round-trip a sampled file: %s" % nv["message"]})
@@ -623,7 +626,7 @@ def _c20_smt(tier, seed):
 PROPS["C20"]["smt"] = _c20_smt
 PROPS["C20"]["assumptions"] = PROPS["C20"]["assumptions"] + [
     "s20_8: TransferWriter::{init, write_record}, TransferReader::{new, read_record}, TransferFileReader::{new, read_record_vec}, reader_transfer_record, the generated code of TransferHeader / TableNameMapEntity / TransferItem, "
-    "MessageBufReader::new_with_data and FileMessageReader from source over the file model; Cursor + binrw for the 8-byte prefix and serde_json of the empty extend map are models; 3 records, table by name or id, value lengths from {3, 200, 1100}",
+    "MessageBufReader::new_with_data and FileMessageReader from source over the file model; Cursor + binrw for the 8-byte prefix and serde_json of the empty extend map are models; 3 records, table by name or id, value lengths from {0, 3, 200, 1100}",
     "s20_7: InstanceMetaRepository::{write_records_to_file, read_records_from_file, save_file_map, load_file_map}, the generated code of InstanceMetaDo / InstanceFileDo and MessageBufReader from source over "
     "the file model (File::create truncates, read returns at most the buffer's length, rename replaces); records files of 3 records with metadata value lengths from {3, 300, 700} (thorough: 4 records, also 1100 and 2100), "
     "file maps of 2..=4 services with file names of 32 / 500 / 700 bytes; a branch on a value byte counts as a decoding failure",
